@@ -14,7 +14,7 @@ warnings.simplefilter("ignore")
 H = Harness("C17", ["OQ.Base.CaseEq", "OQ.Stats.Dist", "OQ.Stats.DistCases", "OQ.Stats.DistReal"],
             "kinds: make (constructor on tuple / binary-string / comma-string keys, binary and multi-digit outcomes incl. "
             ">= 10, normalize on/off; weights dyadic with power-of-two total: exact, arbitrary or within 1e-9 of 1: "
-            "1e-12) and make-invalid (empty, negative weight, unequal key lengths, all-zero, unparsable string); "
+            "1e-12) and make-invalid (empty, negative weight incl. magnitudes down to 2^-100, unequal key lengths, all-zero, unparsable string); "
             "sub (every subset/order of <= 5 qubits on 1-5 subsystems, plus sub-long: non-monotone lists of 4-6 qubits on 4-7 "
             "subsystems incl. first/last spanning len-1 with the middle shuffled or replaced, on outcomes with a distinct "
             "digit per position; source snapshotted before/after) and sub-invalid "
@@ -115,7 +115,7 @@ def gen_invalid(rng):
         items = []
     elif what == "negative":
         i = rng.randrange(len(items))
-        items[i][1] = -rng.choice([0.5, 0.25, 2.0 ** -20, 3.0])
+        items[i][1] = -rng.choice([0.5, 0.25, 2.0 ** -20, 3.0, 2.0 ** -44, 2.0 ** -60, 2.0 ** -100])   # incl. round-off sized negatives
     elif what == "unequal":
         k = items[rng.randrange(len(items))][0]
         other = (list(k) + [rng.choice([0, 1])]) if not isinstance(k, str) else (k + (",1" if "," in k else "1"))
